@@ -535,6 +535,9 @@ def run_history(ctx, seed: int, length: int, script: Optional[List[str]] = None,
                 viol.append(f"step {step} ({op}) raised {type(e).__name__}: {e}"[:300])
                 break
             stats["steps"] += 1
+            sparse = opts.get("judge_sparse")
+            if sparse and not (step % sparse == 0 or step >= (len(script) if script is not None else length) - 6):
+                continue          # long histories: the full re-read of every retained snapshot every `sparse` steps and at the end
             if not judge(step, op, cur):
                 break
             if opts.get("gc_every") and op != "collect":
@@ -595,6 +598,20 @@ def violation_key(v: str) -> str:
     return (what + (":" + after if after else ""))[:60]
 
 
+def harvest_history_constants(lo: int = 16, hi: int = 128) -> List[int]:
+    """Integer literals lo..hi of the modules that write snapshots, manifests and metadata versions (ast walk; nothing hard-coded)."""
+    import ast
+    import datashard
+    out = set()
+    base = os.path.dirname(datashard.__file__)
+    for m in ("transaction.py", "snapshot_manager.py", "metadata_manager.py", "file_manager.py"):
+        with open(os.path.join(base, m), encoding="utf-8") as f:
+            for n in ast.walk(ast.parse(f.read())):
+                if isinstance(n, ast.Constant) and type(n.value) is int and lo <= n.value <= hi:
+                    out.add(n.value)
+    return sorted(out) or [lo]
+
+
 def make_jobs(ctx) -> List[Dict[str, Any]]:
     quick = ctx.tier == "quick"
     nh, length = (24, 14) if quick else (140, 40)
@@ -611,6 +628,13 @@ def make_jobs(ctx) -> List[Dict[str, Any]]:
     for rep in range(2 if quick else 10):
         jobs.append({"seed": 7000 + rep, "script": ["append", "append", "append_multi", "delete_snapshot_cur", "append", "delete_snapshot_cur", "collect"], "opts": {}})
         jobs.append({"seed": 7100 + rep, "script": ["append", "append", "delete_files", "delete_snapshot_cur", "delete_snapshot_cur"], "opts": {}})
+    # LONG histories: one more commit than every small integer constant of the writer modules (harvested from the source:
+    # caps, thresholds, batch sizes a feature may key on), so that whatever happens "once there are N versions / manifests /
+    # snapshots" happens; followed by a partial delete, an append, a collection and an append
+    consts = harvest_history_constants()
+    for c in (consts[-1:] if quick else consts[-3:]):
+        jobs.append({"seed": 9000 + c, "script": ["append"] * (c + 1) + ["delete_files", "append", "collect", "append", "delete_snapshot_cur"],
+                     "opts": {"judge_sparse": 25}, "long": c})
     for ji, j in enumerate(jobs):
         j["length"] = length
         # a third of the histories run on a clock that also steps back
@@ -625,14 +649,17 @@ def run(ctx) -> None:
                 "either side of the cutoff, failed commit of each of these (clean / pointer write landed but reported failed / interrupt after "
                 "the flip)}, half of them with a collection after EVERY step, a third on one reused Transaction object, with a "
                 "scripted clock (equal timestamps frequent); every retained snapshot re-read after every step and after every "
-                "collection; distinct = (seed, step)")
+                "collection; plus LONG histories (one more commit than every small integer constant of the writer modules, harvested "
+                "from the source) re-read every 25 steps and at the end; distinct = (seed, step)")
     ctx.trusted_base += ["harness/props/c09.py + harness/lib/protocol.py independent reader (json, fastavro, pyarrow)",
                          "translator/gen_gcroots.py (Python ast -> Gallina for the loop of collect() that selects the manifest lists to open)",
                          "harness/lib/gcsim.py (directory -> Model/GC.v store; traced storage; frozen clock) as in C05"]
     ctx.assumptions += ["for the wording 'most recently committed ... not newer than t' only: snapshot timestamps non-decreasing in commit "
                         "order (C09_by_timestamp_partial; refuted without it; DESIGN.md C09 interpretation)",
                         "file names are fresh (uuid4 collisions excluded): valid_commit of Model/GCHist.v"]
-    ctx.proofs(THEOREMS, gen_files=["GenMeta.v", "GenNorm.v", "GenGCRoots.v"])
+    # GenFileOps.v: the history theorems are over Meta.step_full, which IS the composition of the regenerated commit kernels
+    # (Proofs/StepGenProofs.v, C15_step_regenerated): a commit path that does something else breaks the tie of these theorems too
+    ctx.proofs(THEOREMS, gen_files=["GenMeta.v", "GenNorm.v", "GenGCRoots.v", "GenFileOps.v"])
     ctx.allow_axioms([])
     import logging
     logging.disable(logging.CRITICAL)
@@ -641,7 +668,8 @@ def run(ctx) -> None:
     agg: Dict[str, int] = {}
     jobs = make_jobs(ctx)
     for j in jobs:
-        viol, lookups, stats = run_history(ctx, j["seed"], j["length"], j["script"], j["backwards"], j["opts"], collect_log)
+        # (the collections of the LONG histories are judged by the oracle only: their stores are too large to evaluate in Coq)
+        viol, lookups, stats = run_history(ctx, j["seed"], j["length"], j["script"], j["backwards"], j["opts"], None if j.get("long") else collect_log)
         ctx.count(stats["steps"], ("hist", j["seed"]))
         for k, v in stats.items():
             agg[k] = agg.get(k, 0) + v
@@ -650,6 +678,8 @@ def run(ctx) -> None:
                           {"seed": j["seed"], "length": j["length"], "script": j["script"], "backwards": j["backwards"], "opts": j["opts"]})
         all_lookups.extend(lookups)
     ctx.stats["histories"] = len(jobs)
+    ctx.stats["long_histories_commits"] = [len(j["script"]) for j in jobs if j.get("long")]
+    ctx.stats["history_constants_harvested"] = harvest_history_constants()
     ctx.stats["directed_histories"] = sum(1 for j in jobs if j["script"] is not None)
     ctx.stats["histories_with_clock_stepping_back"] = sum(1 for j in jobs if j["backwards"])
     ctx.stats["histories_with_a_collection_after_every_step"] = sum(1 for j in jobs if j["opts"].get("gc_every"))
